@@ -429,14 +429,43 @@ def rule_liveness(ctx: Ctx, prog: Program) -> None:
                     gets.append(e)
         for e in gets:
             kw = dict(e.kwargs)
-            bounded = "timeout" in kw or (("block" in kw) and it.scalar(State(), kw["block"]) == ZERO) or len(e.args) >= 2 or (len(e.args) == 1 and it.scalar(State(), e.args[0]) == ZERO)
+            tmo = kw.get("timeout", e.args[1] if len(e.args) >= 2 else None)
+            tmo_none = tmo is not None and _is_none(tmo if not isinstance(tmo, (View, Dual)) else it.scalar(State(), tmo))
+            bounded = (tmo is not None and not tmo_none) or (("block" in kw) and it.scalar(State(), kw["block"]) == ZERO) or (len(e.args) == 1 and it.scalar(State(), e.args[0]) == ZERO)
             if bounded:
                 ctx.ok("R-LIVENESS", f"{name}: the queue read is bounded in time", sample={"kwargs": [k for k in kw]})
             else:
                 ctx.violation("R-LIVENESS", fn.path, name, "blocking-get", f"{fn.path}:{e.line}",
-                              f"{name}: solutions.get() blocks without a timeout: once the remaining workers are dead the call never returns")
+                              f"{name}: solutions.get() blocks without a timeout{' (timeout=None reaches it from this entry point)' if tmo_none else ''}: "
+                              "once the remaining workers are dead the call never returns")
         if not gets:
             ctx.violation("R-LIVENESS", fn.path, name, "no-get", fn.loc(), f"{name}: no read of the result queue found")
+        # (v) the answer of the liveness query is not tested by truthiness when it can be the index 0
+        helper_fns = [fn]
+        for node in ast.walk(fn.node):
+            if isinstance(node, ast.Call) and isinstance(node.func, ast.Name):
+                rs = prog.resolve(fn.module, node.func.id)
+                if rs and rs[0] == "func" and rs[1] not in helper_fns:
+                    helper_fns.append(rs[1])
+        for hf in helper_fns:
+            idx_names = set()
+            for node in ast.walk(hf.node):
+                if isinstance(node, ast.Assign) and len(node.targets) == 1 and isinstance(node.targets[0], ast.Name) and isinstance(node.value, ast.Call) \
+                        and isinstance(node.value.func, ast.Name) and node.value.func.id == "next" and len(node.value.args) == 2 \
+                        and isinstance(node.value.args[1], ast.Constant) and node.value.args[1].value is None:
+                    idx_names.add(node.targets[0].id)
+            for node in ast.walk(hf.node):
+                t = None
+                if isinstance(node, (ast.If, ast.While, ast.IfExp)):
+                    t = node.test
+                    if isinstance(t, ast.UnaryOp) and isinstance(t.op, ast.Not):
+                        t = t.operand
+                if isinstance(node, ast.BoolOp):
+                    t = node.values[0]
+                if isinstance(t, ast.Name) and t.id in idx_names:
+                    ctx.violation("R-LIVENESS", hf.path, name, f"index-truthiness:{t.id}", f"{hf.path}:{node.lineno}",
+                                  f"{hf.qualname}: '{t.id}' is the index of a dead worker or None (next(..., None)) and is tested by truthiness: "
+                                  "worker 0 is falsy, so its death is never noticed and the call waits for ever")
         # (iv) no unbounded wait on a worker handle: join() without a timeout blocks for as long as that worker lives -- on the error path
         # (a sibling died, nobody reads the queue any more) a survivor blocked on a full pipe never exits
         joins = []
